@@ -135,18 +135,31 @@ def _blocks(node):
         yield c.body
 
 
+def _functions_of(tree):
+    fs = getattr(tree, "_utv_functions", None)
+    if fs is None:
+        fs = [n for n in ast.walk(tree) if isinstance(n, (ast.FunctionDef, ast.AsyncFunctionDef))]
+        try:
+            tree._utv_functions = fs
+        except Exception:
+            pass
+    return fs
+
+
 def propagate_attribute_aliases(tree) -> int:
     """canonical form: `x = a.b.c` (a pure attribute chain; x bound exactly once in the function; the root `a` is self /
     cls / a parameter that is never rebound / a local bound exactly once) - every later read of `x` is analysed as
     `a.b.c`.  Hoisting repeated attribute reads into locals, and the reverse, are among the most common
     behaviour-preserving edits; the rules read option and field attributes, so they see the chain either way."""
     count = 0
-    for fn in ast.walk(tree):
-        if not isinstance(fn, (ast.FunctionDef, ast.AsyncFunctionDef)):
-            continue
+    for fn in _functions_of(tree):
         stores = {}
         nested_stores = set()
-        for n in _walk_function(fn):
+        own_nodes = list(_walk_function(fn))
+        if not any(isinstance(n, ast.Assign) and len(n.targets) == 1 and isinstance(n.targets[0], ast.Name)
+                   and isinstance(n.value, (ast.Attribute, ast.UnaryOp, ast.BoolOp, ast.Compare, ast.Name)) for n in own_nodes):
+            continue
+        for n in own_nodes:
             if isinstance(n, ast.Name) and isinstance(n.ctx, (ast.Store, ast.Del)):
                 stores[n.id] = stores.get(n.id, 0) + 1
             elif isinstance(n, ast.ExceptHandler) and n.name:
@@ -154,8 +167,8 @@ def propagate_attribute_aliases(tree) -> int:
             elif isinstance(n, (ast.Global, ast.Nonlocal)):
                 for nm in n.names:
                     stores[nm] = stores.get(nm, 0) + 2
-        for n in ast.walk(fn):
-            if n is not fn and isinstance(n, (ast.FunctionDef, ast.AsyncFunctionDef, ast.Lambda)):
+        for n in own_nodes:
+            if isinstance(n, (ast.FunctionDef, ast.AsyncFunctionDef, ast.Lambda)):
                 for x in ast.walk(n):
                     if isinstance(x, ast.Name) and isinstance(x.ctx, ast.Store):
                         nested_stores.add(x.id)
@@ -168,7 +181,7 @@ def propagate_attribute_aliases(tree) -> int:
         if a.kwarg:
             params.add(a.kwarg.arg)
         aliases = {}
-        for n in _walk_function(fn):
+        for n in own_nodes:
             if isinstance(n, ast.Assign) and len(n.targets) == 1 and isinstance(n.targets[0], ast.Name) \
                     and isinstance(n.value, (ast.Attribute, ast.UnaryOp, ast.BoolOp, ast.Compare, ast.Name)):
                 t = n.targets[0].id
@@ -190,8 +203,13 @@ def propagate_attribute_aliases(tree) -> int:
                 for r in roots:
                     if r == t or r in nested_stores:
                         stable = False
-                    elif not (r in ("self", "cls", "mcs") or (r in params and stores.get(r, 0) == 0) or stores.get(r, 0) == 1
-                              or (r not in params and stores.get(r, 0) == 0)):
+                    elif r in ("self", "cls", "mcs"):
+                        pass
+                    elif r in params:
+                        # a parameter is bound at entry: any further binding makes it unstable
+                        if stores.get(r, 0) != 0:
+                            stable = False
+                    elif stores.get(r, 0) > 1:
                         stable = False
                 if not stable:
                     continue
@@ -260,8 +278,8 @@ def expand_conditional_callees(tree) -> int:
     `if c: S[A(args)] else: S[B(args)]`"""
     import copy as _copy
     count = 0
-    for fn in ast.walk(tree):
-        if not isinstance(fn, (ast.FunctionDef, ast.AsyncFunctionDef)):
+    for fn in _functions_of(tree):
+        if not any(isinstance(n, ast.Assign) and isinstance(n.value, ast.IfExp) for n in ast.walk(fn)):
             continue
         stores, loads = {}, {}
         for n in ast.walk(fn):
@@ -321,8 +339,8 @@ def split_conditional_returns(tree) -> int:
             count += 1
             return [new]
         return [st]
-    for fn in ast.walk(tree):
-        if not isinstance(fn, (ast.FunctionDef, ast.AsyncFunctionDef)):
+    for fn in _functions_of(tree):
+        if not any(isinstance(n, ast.Return) and isinstance(n.value, ast.IfExp) for n in ast.walk(fn)):
             continue
         stack = [fn]
         while stack:
@@ -345,9 +363,7 @@ def inline_return_temporaries(tree) -> int:
     where tmp is a local that is bound nowhere else and read nowhere else, is the same program as `return <expr>`.
     The rules are written against the second spelling; the first is a common behaviour-preserving refactoring."""
     count = 0
-    for fn in ast.walk(tree):
-        if not isinstance(fn, (ast.FunctionDef, ast.AsyncFunctionDef)):
-            continue
+    for fn in _functions_of(tree):
         stores, loads = {}, {}
         for n in ast.walk(fn):
             if isinstance(n, ast.Name):
